@@ -485,3 +485,114 @@ def redecode(change: int, partial: bool, explicit: int):
         finally:
             prog.close()
             sb.close()
+
+
+# ------------------------------------------------------------------------------------------------
+# the document as it is WRITTEN: metadata files of the filesystem back-end, read by another back-end instance
+# ------------------------------------------------------------------------------------------------
+
+def _file_args():
+    tz = datetime.timezone(datetime.timedelta(hours=5, minutes=30))
+    return [
+        ("ascii", "abc"), ("latin", "é"), ("non-bmp", "\U0001F600"), ("lone-surrogate", "a\ud800b"), ("surrogate-escape", "f\udcffile"),
+        ("nul", "a\x00b"), ("line-separators", "a b c\x85"), ("quotes", "\"'\\"), ("control", "\x01\x1f\x7f"), ("empty", ""),
+        ("nested", ["é", {"k\ud800": "v\U0001F600", "b": ["\xff", None, 1.5]}]),
+        ("datetime-offset", datetime.datetime(2020, 1, 2, 3, 4, 5, 6, tzinfo=tz)), ("date", datetime.date(2020, 1, 2)),
+        ("big-int", 2**70), ("float", 0.1), ("neg-zero", -0.0),
+    ]
+
+
+FILE_ARGS = _file_args()
+
+
+@obligation(
+    "C11.metadata_files",
+    covers=("lone-surrogate", "read-by-another-instance", "plain-json-on-disk"),
+    split={"store": ["fs", "fs+meta"]},
+    bounds="a call whose argument (positional, keyword or context argument) is one of %d values - ASCII / Latin / non-BMP text, lone and "
+           "escape surrogates (os.fsdecode file names), NUL, line separators, quotes and backslashes, control characters, a nested "
+           "structure of these, a datetime with a +05:30 offset, a date, 2**70, 0.1, -0.0 - is memoized on the filesystem back-end (shared "
+           "or separate metadata path); every metadata file written is plain JSON text (strict parser, no NaN tokens, UTF-8 decodable); "
+           "a NEW back-end instance over the same directory finds the memento by its key, its recorded arguments equal the originals in "
+           "type and value, the argument hash recomputed from the decoded arguments is the stored one, and the call is a hit" % len(FILE_ARGS),
+    variables="choice: value index, where the value is passed, store",
+    budget_s={"quick": 120, "thorough": 300},
+    choice_vars=3,
+)
+def metadata_files(vi: int, where: int, store: str):
+    import os
+
+    from vp.memenv import Program, Sandbox, concrete_region, restart_sandbox
+
+    vi = pick(vi, len(FILE_ARGS))
+    where = pick(where, 3)
+    with concrete_region():
+        name, value = FILE_ARGS[vi]
+        if "surrogate" in name:
+            cover("lone-surrogate")
+        sb = Sandbox(kinds=store)
+        prog = Program("vpc11f")
+        try:
+            prog.exec("@m.memento_function(version='1')\ndef f(x, y=None):\n    _trace.append(1)\n    return 7\n")
+            f = prog.f
+            if where == 0:
+                call = lambda fn: fn(value)  # noqa: E731
+                handle = f
+            elif where == 1:
+                call = lambda fn: fn(1, y=value)  # noqa: E731
+                handle = f
+            else:
+                call = lambda fn: fn(1)  # noqa: E731
+                handle = f.with_context_args({"c": value})
+            r = call(handle)
+            check("first-call", r == 7 and len(prog.trace) == 1, (r, len(prog.trace)))
+            mem0 = handle.memento(value) if where == 0 else handle.memento(1, y=value) if where == 1 else handle.memento(1)
+            check("memento-written", mem0 is not None, name)
+            fa0 = mem0.invocation_metadata.fn_reference_with_args
+            # every file under the store that is a metadata document: strict JSON, UTF-8
+            docs = 0
+            for dirpath, _d, files in os.walk(sb.root):
+                for fn_ in files:
+                    if fn_.endswith(".json"):
+                        raw = open(os.path.join(dirpath, fn_), "rb").read()
+                        try:
+                            text = raw.decode("utf-8")
+                            doc = json.loads(text, parse_constant=lambda c: (_ for _ in ()).throw(ValueError("non-standard token " + c)))
+                            ok = is_plain_json(doc)
+                        except ValueError as e:
+                            ok, doc = False, str(e)
+                        docs += 1
+                        check("metadata-file-is-plain-json-text", ok, (fn_, str(doc)[:200]))
+            check("a-metadata-file-was-written", docs >= 1, docs)
+            cover("plain-json-on-disk")
+            # another back-end instance over the same directory
+            restart_sandbox(sb, store)
+            cover("read-by-another-instance")
+            mem1 = handle.memento(value) if where == 0 else handle.memento(1, y=value) if where == 1 else handle.memento(1)
+            check("found-by-another-instance", mem1 is not None, name)
+            fa1 = mem1.invocation_metadata.fn_reference_with_args
+            check("recorded-arguments-equal-in-type-and-value", _same_args(fa1, fa0), (name, repr(fa1.args), repr(fa1.kwargs), repr(fa1.context_args)))
+            check("recorded-argument-hash-is-the-stored-key", fa1.arg_hash == fa0.arg_hash, (fa1.arg_hash, fa0.arg_hash))
+            again = FunctionReferenceWithArguments(fa1.fn_reference, fa1.args, fa1.kwargs, context_args=fa1.context_args)
+            check("argument-hash-recomputed-from-the-decoded-arguments", again.arg_hash == fa0.arg_hash, (again.arg_hash, fa0.arg_hash))
+            r2 = call(handle)
+            check("hit-through-another-instance", r2 == 7 and len(prog.trace) == 1, (r2, len(prog.trace)))
+        finally:
+            prog.close()
+            sb.close()
+
+
+def _typed_same(a, b):
+    if isinstance(a, datetime.datetime) and isinstance(b, datetime.datetime):
+        return a == b and a.utcoffset() == b.utcoffset()
+    if isinstance(a, (list, tuple)) and isinstance(b, (list, tuple)):
+        return len(a) == len(b) and all(_typed_same(x, y) for x, y in zip(a, b))
+    if isinstance(a, dict) and isinstance(b, dict):
+        return sorted(a) == sorted(b) and all(_typed_same(a[k], b[k]) for k in a)
+    if isinstance(a, float) and isinstance(b, float):
+        return repr(a) == repr(b)
+    return type(a) is type(b) and a == b
+
+
+def _same_args(x, y):
+    return _typed_same(list(x.args), list(y.args)) and _typed_same(x.kwargs, y.kwargs) and _typed_same(x.context_args, y.context_args)
